@@ -427,7 +427,7 @@ class Table(Vector):
 				cols = list(self._underlying)
 				value._name = self._underlying[col_idx_indexed]._name  # Preserve original name
 				cols[col_idx_indexed] = value
-				object.__setattr__(self, '_underlying', tuple(cols))
+				self._replace_columns(tuple(cols))
 				object.__setattr__(self, '_column_map', self._build_column_map())
 				return
 			
@@ -451,7 +451,7 @@ class Table(Vector):
 				cols = list(self._underlying)
 				value._name = self._underlying[col_idx]._name  # Preserve original name
 				cols[col_idx] = value
-				object.__setattr__(self, '_underlying', tuple(cols))
+				self._replace_columns(tuple(cols))
 				
 				# Rebuild column map to reflect any structural changes
 				object.__setattr__(self, '_column_map', self._build_column_map())
@@ -462,6 +462,13 @@ class Table(Vector):
 			f"Cannot set attribute '{attr}' on Table. "
 			f"Column '{attr}' does not exist. Use >>= to add new columns."
 		)
+
+	def _replace_columns(self, new_cols):
+		"""Swap the column tuple, keeping the alias tracker in step with the storage."""
+		from .alias_tracker import _ALIAS_TRACKER
+		_ALIAS_TRACKER.unregister(self, id(self._underlying))
+		object.__setattr__(self, '_underlying', new_cols)
+		_ALIAS_TRACKER.register(self, id(new_cols))
 
 	def rename_column(self, old_name, new_name):
 		"""Rename a column (modifies in place, returns self for chaining)"""
